@@ -718,6 +718,20 @@ fn call_step(g: &mut FnGhost, k: u32, now: u64, out: &mut StepOut) {
             for extra in post.difference(&cand) {
                 out.findings.push(MFinding { property: "C01", monitor: "phantom-entry".into(), detail: format!("{}({k}) made key {extra} appear", f.fn_name) });
             }
+            // entries that were already expired when this call stored (not the stored key itself): an
+            // implementation may purge them at any time; that is neither a victim nor a needless eviction
+            let stale: BTreeSet<u32> = cand
+                .difference(post)
+                .copied()
+                .filter(|kk| {
+                    *kk != k
+                        && match (f.ttl, g.present.get(kk)) {
+                            (Some(t), Some(e)) => now - e.born_ns >= t * NS || (f.flavour == Flavour::Async && now / NS - e.born_ns / NS >= t),
+                            _ => false,
+                        }
+                })
+                .collect();
+            let cand: BTreeSet<u32> = cand.difference(&stale).copied().collect();
             let removed = cand.difference(post).count();
             // which entries went (FIFO: oldest store first, LRU: least recently used first)
             if removed > 0 && matches!(f.pol(), Pol::Fifo | Pol::Lru) && !oversized {
@@ -741,7 +755,7 @@ fn call_step(g: &mut FnGhost, k: u32, now: u64, out: &mut StepOut) {
             }
             if f.mem.is_none() {
                 let expect = f.limit.map_or(0, |n| cand.len().saturating_sub(n));
-                if removed != expect {
+                if removed != expect && !(removed < expect && f.limit.map_or(false, |n| post.len() <= n)) {
                     out.findings.push(MFinding { property: "C04", monitor: if removed > expect { "needless-eviction" } else { "missing-eviction" }.into(), detail: format!("{}({k}): keys {:?} -> {:?} with limit {:?}", f.fn_name, pre, post, f.limit) });
                 }
             }
